@@ -386,6 +386,32 @@ func tailAnchor(pP, pQ gammaPath) string {
 	default:
 		return ""
 	}
+	// the complement 1 - (routine value) is accurate only where the routine's tail is the small one: the method must
+	// have been selected by a comparison of a with x (or of x with a power/logarithm bound on a), not by a alone
+	related := false
+	for g := range pP.pure {
+		hasA, hasX := false, false
+		for _, tok := range strings.FieldsFunc(g, func(r rune) bool {
+			return !(r == '_' || r >= 'a' && r <= 'z' || r >= 'A' && r <= 'Z' || r >= '0' && r <= '9')
+		}) {
+			if tok == "a" {
+				hasA = true
+			}
+			if tok == "x" {
+				hasX = true
+			}
+		}
+		if hasA && hasX {
+			related = true
+		}
+		// a routine that computes P may also be selected by an upper bound on x alone (P is the small tail for small x)
+		if direct == "P" && pP.pure[g] && strings.HasPrefix(g, "lt(x, ") && !hasA {
+			related = true
+		}
+	}
+	if !related {
+		return "one tail is obtained as 1 - (value of the evaluation routine) on a path whose guards never compare a with x: the routine is used where its tail is close to 1 and the complement loses all accuracy"
+	}
 	ks := kinds(pP.ret)
 	want := ""
 	switch {
